@@ -161,6 +161,31 @@ class Outcome:
         return "<%s %r @%s>" % (self.kind, self.value, self.site)
 
 
+class _Outs:
+    """Outcomes of one activation, de-duplicated after dropping the activation's own locals."""
+
+    def __init__(self, frame):
+        self.frame = frame
+        self.seen = {}
+
+    def append(self, o):
+        o.store = {k: v for k, v in o.store.items() if k[0] != self.frame}
+        key = (o.kind, _h(o.value), frozenset(o.store.items()))
+        if key not in self.seen:
+            self.seen[key] = o
+
+    def list(self):
+        return list(self.seen.values())
+
+
+def _h(v):
+    try:
+        hash(v)
+        return v
+    except TypeError:
+        return repr(v)
+
+
 class Domain:
     """Override `call` (and optionally the others) in concrete domains."""
 
@@ -394,15 +419,22 @@ class Interp:
     # ---- running -----------------------------------------------------------------------------
     def run(self, body, args, store, depth=0):
         """Explore `body` with argument values `args`; returns a list of Outcome."""
-        frame = self.new_frame()
-        st = dict(store)
+        frame = depth + 1
+        st = {k: v for k, v in store.items() if k[0] != frame}
         for i, a in enumerate(args):
             st[(frame, i + 1)] = a
-        outs = []
+        live = getattr(body, "_live", None)
+        if live is None:
+            from .. import cfg as _cfg
+            live = body._live = _cfg.liveness(body)
+        live_in, addr = live
+        outs = _Outs(frame)
         visited = set()
         work = [(0, st)]
         while work:
             bid, st = work.pop()
+            keep = live_in[bid]
+            st = {k: v for k, v in st.items() if k[0] != frame or k[1] in keep or k[1] in addr}
             key = (bid, self._freeze(st, frame))
             if key in visited:
                 continue
@@ -476,7 +508,7 @@ class Interp:
                     work.append((t["target"], st2))
             else:
                 pass
-        return outs
+        return outs.list()
 
     def _freeze(self, st, frame):
         return frozenset(st.items())
